@@ -251,7 +251,10 @@ func (p *HTTPProxy) ServeHTTP(w http.ResponseWriter, r *http.Request) {
 	}
 
 	start := timeNow()
-	rw := &responseWriter{w: w}
+	// the reverse proxy clears the response headers after it has relayed
+	// an informational response (103 Early Hints). Make sure that the
+	// final response has the headers fabio adds.
+	rw := &responseWriter{w: w, final: func() { addResponseHeaders(w, r, p.Config) }}
 	h.ServeHTTP(rw, r)
 	end := timeNow()
 	dur := end.Sub(start)
@@ -301,6 +304,10 @@ type responseWriter struct {
 	w    http.ResponseWriter
 	code int
 	size int
+
+	// final is called before the header of the
+	// final (not informational) response is written.
+	final func()
 }
 
 func (rw *responseWriter) Header() http.Header {
@@ -314,6 +321,10 @@ func (rw *responseWriter) Write(b []byte) (int, error) {
 }
 
 func (rw *responseWriter) WriteHeader(statusCode int) {
+	informational := statusCode >= 100 && statusCode < 200 && statusCode != http.StatusSwitchingProtocols
+	if rw.final != nil && !informational {
+		rw.final()
+	}
 	rw.w.WriteHeader(statusCode)
 	rw.code = statusCode
 }
